@@ -328,9 +328,12 @@ var (
 	c17VarErr  error
 )
 
-// c17Detect probes the two behaviours in which the proposed repairs differ from the unchanged
-// code, so that the model revision that is compared is the one that is compiled in.  Whatever is
-// detected, every answer of every history is still compared with that model and judged by Spec.
+// c17Detect probes the two behaviours in which the code before 6f25651 (write-through cache, the
+// REGRESSION MODEL Variant.oldWriteThrough) differs from the current code (invalidate + generation
+// guard, Variant.current), so that a reverted or weakened fix is explained by the matching model:
+// the failing schedules then carry the signatures of the former findings — all of them are
+// VIOLATIONS now.  Whatever is detected, every answer of every history is still compared with that
+// model and judged by Spec.
 func c17Detect(a lib.Args) (c17Variant, error) {
 	c17VarOnce.Do(func() {
 		dir := filepath.Join(a.Work, "c17-detect")
@@ -885,7 +888,11 @@ func c17Seq(a lib.Args, res *lib.Result) error {
 	if err != nil {
 		return err
 	}
-	res.Note("code revision detected by probe: CreateAccount copies uid/gid into the cache entry = %v; miss path guarded against concurrent changes = %v", v.CopyIds || v.Invalidate, v.Invalidate)
+	if v.Invalidate {
+		res.Note("code revision detected by probe: current (account changes invalidate the cache entry; the miss path is guarded by the generation)")
+	} else {
+		res.Note("REGRESSION: the probes see the write-through cache of the code before 6f25651 (CreateAccount caches uid/gid = %v; a lookup in flight across a delete stores what it fetched): compared with the regression model Variant.oldWriteThrough", v.CopyIds)
+	}
 	var hists []c17Hist
 	if in := a.ReplayInput(); in != nil {
 		if in["stage"] != "seq" {
@@ -975,12 +982,12 @@ func c17Seq(a lib.Args, res *lib.Result) error {
 		quiet := out[at[i]+nl] == "1"
 		verdict := out[at[i]+nl+1]
 		if quiet {
-			res.Histogram["seq:side-condition-of-partial-theorems:holds"]++
+			res.Histogram["seq:quiet-for-the-old-write-through-model:holds"]++
 		} else {
-			res.Histogram["seq:side-condition-of-partial-theorems:violated"]++
+			res.Histogram["seq:quiet-for-the-old-write-through-model:violated"]++
 		}
 		if quiet && verdict != "ok" {
-			res.Fail(lib.Failure{Kind: "property", Signature: "iam:violation-on-quiet-schedule", What: "the history satisfies the side condition of Props.C17.seq_refines_map_partial (quietRunB) and is still rejected by the oracle", Input: h,
+			res.Fail(lib.Failure{Kind: "property", Signature: "iam:violation-on-quiet-schedule", What: "the history is quiet even by the standard of the old write-through model (quietRunB) and is still rejected by the oracle", Input: h,
 				Impl: strings.Join(run.Results, " "), Model: strings.Join(mres, " ")})
 		}
 		for j, o := range h.Ops {
